@@ -1021,3 +1021,8 @@ V("shaving-bound-reaches-2", "break", ["C16", "C10"], SH, None, None, "bound += 
          {"old": "            # this is one of the many shaving strategies\n            bound += 1\n", "new": ""}])
 V("shaving-bound-toggle", "neutral", ["C16", "C10", "C04"], SH, "            bound += 1\n            if bound > MAX:\n                bound = MIN\n                start_idx += 1\n",
   "            if bound == MAX:\n                bound = MIN\n                start_idx += 1\n            else:\n                bound = MAX\n", "the selector toggled instead of incremented and wrapped")
+# ---- R-EXTENT sentinel-reaches-index (round 6, C16-x2)
+V("pop-previous-sentinel-untested", "break", ["C16"], PR, "    if previous_prop_idx != -1 and triggered_propagators[previous_prop_idx]:\n", "    if triggered_propagators[previous_prop_idx]:\n",
+  "the -1 'no previous propagator' sentinel indexes the queue (outside it for a model without constraints)", "pop_propagator", expect_rule="R-EXTENT")
+V("pop-previous-sentinel-ge0", "neutral", ["C16", "C01", "C08"], PR, "    if previous_prop_idx != -1 and triggered_propagators[previous_prop_idx]:\n",
+  "    if previous_prop_idx >= 0 and triggered_propagators[previous_prop_idx]:\n", "the sentinel excluded by a sign test")
